@@ -45,7 +45,7 @@ class Inst:
                          'skip': [bool(self.skip.get((st, t), False)) for t in range(self.T)],
                          'linked': [list(x) for x in self.linked.get(st, [])]})
         return {'nodes': list(self.nodes), 'nbrs': [[n, list(self.nbrs[n])] for n in self.nodes], 'tab': rows,
-                'tr': self.tr, 'T': self.T}
+                'tr': self.tr, 'T': self.T, 'hasTT': False, 'tt': []}
 
 
 def _seq(x, T):
